@@ -159,10 +159,10 @@ func runC02(c *core.Ctx) core.Meta {
 	// ---------------- R02.1 one ALU ----------------
 	st1 := c.Rule("R02.1", "in the timing compute unit architectural state of a wavefront (operand writes, VCC/SCC/EXEC/PC) is changed only through the shared emulation ALU (alu.Run from the branch, scalar, SIMD and LDS units) plus a frozen list of non-interpreting writers; the builder obtains the ALU only from emu.NewALU or the injected factory", 8)
 	allowed := map[string]string{
-		"WfDispatcherImpl.setWfInfo":        "initial PC and EXEC of a dispatched wavefront",
-		"ComputeUnit.UpdatePCAndSetReady":   "advances the PC past a completed instruction",
-		"WfDispatcherImpl.initRegisters":    "initial register values (mirrors emu.initWfRegs, R02.2)",
-		"CURegFileAccessor.WriteReg":        "the register store behind WriteOperand (C07)",
+		"WfDispatcherImpl.setWfInfo":      "initial PC and EXEC of a dispatched wavefront",
+		"ComputeUnit.UpdatePCAndSetReady": "advances the PC past a completed instruction",
+		"WfDispatcherImpl.initRegisters":  "initial register values (mirrors emu.initWfRegs, R02.2)",
+		"CURegFileAccessor.WriteReg":      "the register store behind WriteOperand (C07)",
 	}
 	pcu.Instrs(func(fn *ssa.Function, in ssa.Instruction) {
 		f := core.CalleeFunc(in)
